@@ -168,24 +168,55 @@ theorem classify_vhost {cfg : HostCfg} {h : Bytes} {parse : Bytes → Option Vir
   | none => rfl
   | some decoded => simp [hs, hp, hip, hv]
 
-/-- `b.d` belongs to base domain `d` with bucket `b` -/
-theorem parseHostHeader_sub (b d : Bytes) :
-    parseHostHeader d (b ++ dot :: d) = some ⟨d, some b⟩ := by
+/-- a header value that `to_str` accepts is ASCII -/
+theorem ascii_of_headerToStrOk {h : Bytes} (hs : headerToStrOk h = true) : ∀ c ∈ h, c.toNat < 128 := by
+  intro c hc
+  have := List.all_eq_true.mp hs c hc
+  simp only [Bool.or_eq_true, Bool.and_eq_true, decide_eq_true_eq] at this
+  rcases this with h | ⟨_, h⟩
+  · subst h; decide
+  · omega
+
+/-- `b.t` belongs to base domain `d` with bucket `b` (verbatim) whenever `t` is `d` up to ASCII
+    case and starts at a character boundary -/
+theorem parseHostHeader_sub (b t d : Bytes) (ht : toAsciiLower t = toAsciiLower d)
+    (hbnd : ∀ c ∈ t.head?, c.toNat < 128 ∨ 192 ≤ c.toNat) :
+    parseHostHeader d (b ++ dot :: t) = some ⟨d, some b⟩ := by
+  have hlen : t.length = d.length := by
+    have := congrArg List.length ht
+    simpa [toAsciiLower_length] using this
   unfold parseHostHeader
-  have hne : b ++ dot :: d ≠ d := by
-    intro e
-    have := congrArg List.length e
-    simp at this
-    omega
-  rw [if_neg hne]
-  have h1 : stripSuffix d (b ++ dot :: d) = some (b ++ [dot]) := by
-    unfold stripSuffix
-    have : d.isSuffixOf (b ++ dot :: d) = true :=
-      List.isSuffixOf_iff_suffix.mpr ⟨b ++ [dot], by simp⟩
-    rw [if_pos this]
-    congr 1
-    have : (b ++ dot :: d).length - d.length = (b ++ [dot]).length := by simp; omega
-    rw [this, show b ++ dot :: d = (b ++ [dot]) ++ d by simp, List.take_left]
+  have hne : eqIgnoreAsciiCase (b ++ dot :: t) d = false := by
+    cases he : eqIgnoreAsciiCase (b ++ dot :: t) d with
+    | false => rfl
+    | true =>
+      have := congrArg List.length ((eqIgnoreAsciiCase_iff _ _).mp he)
+      simp [toAsciiLower_length] at this
+      omega
+  rw [hne]
+  have hidx : (b ++ dot :: t).length - d.length = (b ++ [dot]).length := by simp; omega
+  have hsplit : b ++ dot :: t = (b ++ [dot]) ++ t := by simp
+  have h1 : stripSuffixIgnoreAsciiCase (b ++ dot :: t) d = some (b ++ [dot]) := by
+    unfold stripSuffixIgnoreAsciiCase
+    have hlt : ¬ (b ++ dot :: t).length < d.length := by simp; omega
+    rw [if_neg hlt]
+    simp only [hidx]
+    have hdrop : (b ++ dot :: t).drop (b ++ [dot]).length = t := by
+      rw [hsplit, List.drop_left]
+    have htake : (b ++ dot :: t).take (b ++ [dot]).length = b ++ [dot] := by
+      rw [hsplit, List.take_left]
+    have hb : isCharBoundary (b ++ dot :: t) (b ++ [dot]).length = true := by
+      unfold isCharBoundary
+      have : (b ++ [dot]).length ≠ 0 := by simp
+      rw [if_neg this, hdrop]
+      cases t with
+      | nil => simp
+      | cons c r =>
+        have := hbnd c (by simp)
+        simpa using this
+    rw [hb, hdrop, htake]
+    have : eqIgnoreAsciiCase t d = true := (eqIgnoreAsciiCase_iff _ _).mpr ht
+    simp [this]
   have h2 : stripSuffix [dot] (b ++ [dot]) = some b := by
     unfold stripSuffix
     have : [dot].isSuffixOf (b ++ [dot]) = true :=
@@ -196,18 +227,29 @@ theorem parseHostHeader_sub (b d : Bytes) :
     rw [this, List.take_left]
   simp [h1, h2]
 
-/-- a base domain of the configuration: the single one, or a member of an accepted list -/
+/-- a base domain of the configuration: the single one, or a member of a list accepted by
+    `MultiDomain::new` whose members do not overlap even when ASCII case is ignored (true of every
+    accepted list written in lower case, `pairwiseCI_of_lower`) -/
 def ConfiguredDomain (cfg : HostCfg) (d : Bytes) : Prop :=
-  cfg = .single d ∨ ∃ ds, multiNew ds = .ok ds ∧ d ∈ ds ∧ cfg = .multi ds
+  cfg = .single d ∨ ∃ ds, multiNew ds = .ok ds ∧ ds.Pairwise (fun a b => ¬ OverlapCI a b) ∧
+    d ∈ ds ∧ cfg = .multi ds
 
-/-- the configured host parser resolves `b.d` to bucket `b` of base domain `d` -/
-theorem parser_of_configured {cfg : HostCfg} {d : Bytes} (h : ConfiguredDomain cfg d) (b : Bytes) :
-    ∃ parse, cfg.parser = some parse ∧ parse (b ++ dot :: d) = some ⟨d, some b⟩ := by
-  rcases h with rfl | ⟨ds, hnew, hd, rfl⟩
-  · exact ⟨singleParse d, rfl, by simp [singleParse, parseHostHeader_sub]⟩
+/-- the configured host parser resolves `b.t` (`t` = `d` up to case) to bucket `b` of base
+    domain `d` -/
+theorem parser_of_configured {cfg : HostCfg} {d : Bytes} (h : ConfiguredDomain cfg d) (b t : Bytes)
+    (ht : toAsciiLower t = toAsciiLower d)
+    (hbnd : ∀ c ∈ t.head?, c.toNat < 128 ∨ 192 ≤ c.toNat) :
+    ∃ parse, cfg.parser = some parse ∧ parse (b ++ dot :: t) = some ⟨d, some b⟩ := by
+  rcases h with rfl | ⟨ds, _, hp, hd, rfl⟩
+  · exact ⟨singleParse d, rfl, by simp [singleParse, parseHostHeader_sub b t d ht hbnd]⟩
   · refine ⟨multiParse ds, rfl, ?_⟩
-    obtain ⟨_, _, _, hp⟩ := (multiNew_ok ds ds).mp hnew
-    simp [multiParse, firstMatch_eq_of_mem hp hd (parseHostHeader_sub b d)]
+    simp [multiParse, firstMatch_eq_of_mem hp hd (parseHostHeader_sub b t d ht hbnd)]
+
+theorem boundary_of_headerToStrOk {b t : Bytes} (hs : headerToStrOk (b ++ dot :: t) = true) :
+    ∀ c ∈ t.head?, c.toNat < 128 ∨ 192 ≤ c.toNat := by
+  intro c hc
+  have hm : c ∈ t := List.mem_of_mem_head? hc
+  exact Or.inl (ascii_of_headerToStrOk hs c (by simp [hm]))
 
 /-- path-style request for `/b/k`, spelled in any legal way: the outcome is that of the parser on
     bucket `b` and path `/k` -/
@@ -219,12 +261,14 @@ theorem classify_path_result {cfg : HostCfg} {host : Option Bytes} {b k e : Byte
   simp only []
   rw [style_equiv b k (slash_not_mem_of_check hb)]
 
-/-- virtual-hosted-style request for host `b.d` and path `/k`, spelled in any legal way -/
-theorem classify_vhost_result {cfg : HostCfg} {d b k e : Bytes} (hc : ConfiguredDomain cfg d)
-    (hs : headerToStrOk (b ++ dot :: d) = true) (hip : isSocketAddrOrIpAddr (b ++ dot :: d) = false)
+/-- virtual-hosted-style request for host `b.t` (`t` = base domain `d` up to ASCII case) and path
+    `/k`, spelled in any legal way -/
+theorem classify_vhost_result {cfg : HostCfg} {d t b k e : Bytes} (hc : ConfiguredDomain cfg d)
+    (ht : toAsciiLower t = toAsciiLower d)
+    (hs : headerToStrOk (b ++ dot :: t) = true) (hip : isSocketAddrOrIpAddr (b ++ dot :: t) = false)
     (hu : utf8Valid k = true) (hsp : Spelling e (slash :: k)) :
-    classify cfg (some (b ++ dot :: d)) e = convert (parseVirtualHostedStyle (some b) (slash :: k)) := by
-  obtain ⟨parse, hp, hv⟩ := parser_of_configured hc b
+    classify cfg (some (b ++ dot :: t)) e = convert (parseVirtualHostedStyle (some b) (slash :: k)) := by
+  obtain ⟨parse, hp, hv⟩ := parser_of_configured hc b t ht (boundary_of_headerToStrOk hs)
   rw [classify_vhost hp hs hip hv, urlDecode_spelling hsp (by rw [utf8Valid_cons_ascii (by decide), hu])]
 
 /-! ### `pctEncode` produces spellings -/
@@ -323,13 +367,14 @@ theorem urlDecode_append_ascii {p : Bytes} (hp : pct ∉ p) (ha : ∀ c ∈ p, c
     cases utf8Valid (pctDecodeBytes s) <;> rfl
 
 /-- the two forms of one request have the same outcome at the glue, for every raw path -/
-theorem classify_style_equiv {cfg cfg' : HostCfg} {host' : Option Bytes} {d b : Bytes}
-    (hc : ConfiguredDomain cfg d) (hs : headerToStrOk (b ++ dot :: d) = true)
-    (hip : isSocketAddrOrIpAddr (b ++ dot :: d) = false) (hps : PathStyleChosen cfg' host')
+theorem classify_style_equiv {cfg cfg' : HostCfg} {host' : Option Bytes} {d t b : Bytes}
+    (hc : ConfiguredDomain cfg d) (ht : toAsciiLower t = toAsciiLower d)
+    (hs : headerToStrOk (b ++ dot :: t) = true)
+    (hip : isSocketAddrOrIpAddr (b ++ dot :: t) = false) (hps : PathStyleChosen cfg' host')
     (hb1 : ∀ c ∈ b, c.toNat < 128) (hb2 : pct ∉ b) (hb3 : slash ∉ b) (e : Bytes) :
-    classify cfg (some (b ++ dot :: d)) (slash :: e) =
+    classify cfg (some (b ++ dot :: t)) (slash :: e) =
       classify cfg' host' (slash :: (b ++ slash :: e)) := by
-  obtain ⟨parse, hp, hv⟩ := parser_of_configured hc b
+  obtain ⟨parse, hp, hv⟩ := parser_of_configured hc b t ht (boundary_of_headerToStrOk hs)
   rw [classify_vhost hp hs hip hv, classify_pathStyle hps, pathStyleOutcome]
   have h1 : urlDecode (slash :: e) = (urlDecode e).map ([slash] ++ ·) :=
     urlDecode_append_ascii (p := [slash]) (by decide) (by decide) e
